@@ -15,7 +15,7 @@ RULE = (
     "return code, payload lengths boundary-biased up to 70000), an optional suffix (random bytes, a second message, "
     "a truncated header) and an optional corruption of one header field of one message (length incl. 0..7 and "
     "overshoot, protocol version, message type, return code); non-trivial = payload >= 65528 bytes, or non-empty "
-    "suffix, or >= 2 messages, or a corrupted field; distinct = distinct case JSON"
+    "suffix, or >= 2 messages, or a corrupted field; additionally datagrams of 1..6 SD-endpoint messages (well-formed, undecodable SD payload, foreign service, wrong message type) delivered to a discovery endpoint; distinct = distinct case JSON"
 )
 ASSUMPTIONS = [
     "harness/wire.py (independent codec written from the layout tables) is the reference for layout and for accept/reject",
@@ -76,8 +76,12 @@ def _case(draw):
     return {"msgs": msgs, "suffix": suffix, "corrupt": corrupt}
 
 
+_sdmsg = st.one_of(st.just({"kind": "ok"}), st.just({"kind": "ok"}), st.just({"kind": "badsd"}), st.just({"kind": "foreign"}), st.just({"kind": "request"}),
+                   st.builds(lambda a: {"kind": "cut", "at": a}, st.integers(0, 15)))
+
+
 def strategy(tier):
-    return _case()
+    return st.one_of(_case(), _case(), _case(), st.builds(lambda ms, mc: {"kind": "sdgram", "msgs": ms, "mc": mc}, st.lists(_sdmsg, min_size=1, max_size=6), st.booleans()))
 
 
 def fixed_cases(tier):
@@ -159,9 +163,52 @@ def extra(tier, seed, shard, st):
     campaign.run_shard(sys.modules[__name__], tier, seed, shard, st, runs=FUZZ_RUNS[tier], with_corpus=shard % 2 == 0)
 
 
+class _RecSD(sd.ServiceDiscoveryProtocol):
+    def __init__(self):
+        super().__init__(("224.244.224.245", 30490))
+        self.tags = []
+
+    def sd_message_received(self, sdhdr, addr, multicast):
+        self.tags.append([e.service_id for e in sdhdr.entries])
+
+
+def run_sdgram(case):
+    """several messages in one datagram at a discovery endpoint: the well-formed SD messages reach the application one by
+    one, in order, also when a message between them is not an SD notification or carries an undecodable SD payload"""
+    from ..simkit import Sim
+    parts = []
+    expect = []
+    for n, m in enumerate(case["msgs"][:8]):
+        kind = m.get("kind", "ok")
+        tag = 0x100 + n
+        b = wire.SDBuilder().add(wire.OFFER, tag, 1, 1, 3, minor=0)
+        payload_ = wire.encode_sd(0xC0, b.entries, b.options)
+        svc, mt = 0xFFFF, 2
+        if kind == "badsd":
+            payload_ = payload_[:9] + b"\xff\xff" + payload_[11:]      # entries length overruns
+        elif kind == "cut":
+            payload_ = payload_[: 8 + m.get("at", 3) % 16]
+        elif kind == "foreign":
+            svc = 0x1234
+        elif kind == "request":
+            mt = 0
+        parts.append(wire.encode_someip(svc, 0x8100, 0, n + 1, 1, mt, 0, payload_))
+        if kind == "ok":
+            expect.append([tag])
+    with Sim() as sim:
+        p = _RecSD()
+        p.datagram_received(b"".join(parts), ("10.0.0.2", 30490), bool(case.get("mc")))
+        sim.settle()
+        require(p.tags == expect, "C01.sd-delivery",
+                lambda: f"datagram of {[m.get('kind', 'ok') for m in case['msgs'][:8]]} SD-endpoint messages: delivered {p.tags}, expected {expect}")
+    return ok(len(parts) >= 2, ["kind=sdgram", f"msgs={min(len(parts), 3)}"])
+
+
 def run_case(case):
     if case.get("kind") == "raw":
         return run_raw(bytes.fromhex(case["hex"]))
+    if case.get("kind") == "sdgram":
+        return run_sdgram(case)
     msgs = case["msgs"]
     suffix = case["suffix"]
     corrupt = case.get("corrupt")
